@@ -15,11 +15,13 @@ CONFIGS = {
     "tls-mix": "features:\n  versions: [HTTP_VERSION_1, HTTP_VERSION_2]\n  protocols: [PROTOCOL_CONNECT, PROTOCOL_GRPC]\n  codecs: [CODEC_PROTO]\n  compressions: [COMPRESSION_IDENTITY]\n  supportsTls: true\n  supportsH2c: true\n",
     "tls-certs": "features:\n  versions: [HTTP_VERSION_2]\n  protocols: [PROTOCOL_CONNECT, PROTOCOL_GRPC_WEB]\n  codecs: [CODEC_PROTO]\n  compressions: [COMPRESSION_IDENTITY]\n  supportsTls: true\n  supportsTlsClientCerts: true\n  supportsH2c: false\n",
 }
+CONFIGS["tls-one-cert-instance"] = "features:\n  versions: [HTTP_VERSION_2]\n  protocols: [PROTOCOL_GRPC]\n  codecs: [CODEC_PROTO]\n  compressions: [COMPRESSION_IDENTITY]\n  supportsTls: true\n  supportsTlsClientCerts: true\n  supportsH2c: false\n"
 SLICES = {
     "basic": (["Basic/**"], []),
     "basic-unary": (["Basic/**/unary/**"], []),
     "errors-skip-stream": (["Errors/**"], ["**/server-stream/**"]),
     "two-suites": (["Basic/**", "Duplicate Metadata/**"], ["**/client-stream/**"]),
+    "client-certs": (["TLS Client Certs/**", "Basic/**/unary/**"], []),
 }
 
 
@@ -165,6 +167,8 @@ def run(ctx):
     else:
         pick = rnd.sample(space, 20 if q else 160)
         pick += [s for s in space if s["srvFault"] != "none:0" and s["config"] == "h1h2c-all" and s["slice"] == "basic-unary" and s["par"] == 4 and s["maxServers"] in (1, 2)]
+        # exactly one instance with client certificates: visited in an order that varies from run to run, so several runs
+        pick += [s for s in space if s["srvFault"] == "none:0" and s["config"] == "tls-one-cert-instance" and s["slice"] == "client-certs" and s["par"] == 4] * 6
     scns = []
     for s in pick:
         run_p, skip_p = SLICES[s["slice"]]
